@@ -61,9 +61,21 @@ def show(n, ren=None, keep_adjust=False, skip_debug=True):
             return nm(n["name"])
         if k == "Lit":
             v = n["v"]
-            return ("-" if n.get("neg") else "") + v.split(":", 1)[1] if ":" in v else v
+            tag, _, rest = v.partition(":")
+            if tag == "s":
+                return '"' + rest.replace("\\", "\\\\").replace('"', '\\"') + '"'
+            if tag == "c":
+                return "'" + rest + "'"
+            return ("-" if n.get("neg") else "") + rest if rest or tag in ("i", "f", "bool") else v
         if k == "Call":
-            f = short(n.get("fn")) if n.get("fn") else "(" + go(n.get("fun")) + ")"
+            fn = n.get("fn") or ""
+            if any("macro:Bang:format" in e or "macro:Bang:$crate::format" in e or "format_args" in e for e in (n.get("exp") or [])) and not keep_adjust:
+                return "format!(..)"
+            if "panicking::panic" in fn or fn.endswith("::begin_panic"):
+                return "panic!()"
+            f = short(fn) if fn else "(" + go(n.get("fun")) + ")"
+            if fn.endswith(("::expect", "::expect_err")) and len(n["args"]) == 2:
+                return f + "(" + go(n["args"][0]) + ', "..")'
             return f + "(" + ", ".join(go(a) for a in n["args"]) + ")"
         if k == "Adt":
             name = n["adt"].split("::")[-1] + "::" + n["variant"]
@@ -148,4 +160,5 @@ def show(n, ren=None, keep_adjust=False, skip_debug=True):
             return "[" + go(n["value"]) + "; " + n["count"] + "]"
         return "<" + str(k) + ">"
 
-    return go(n)
+    import alpha
+    return alpha.S(go(n))
